@@ -97,7 +97,7 @@ def run(ck, ctx):
                 recv = we.data.get("recv")
                 fmt, ov = kws.get("format"), kws.get("overwrite")
                 same_tbl = recv is not None and any(r is table for r in I.roots(recv))
-                cond_ok = any(c is ws and p for c, p in we.pc) and not any(c is ws and p for c, p in m[0][1].pc)
+                cond_ok = _under(we.pc, ws) and not _under(m[0][1].pc, ws)
                 ok = (same_tbl and pos and pos[0] is outf and fmt is not None and fmt.op == "Const" and fmt.attr == "fits"
                       and ov is not None and ov.op == "Const" and ov.attr is True and cond_ok)
                 detail = (f"write({g.show(pos[0], 1) if pos else '?'}, format={g.show(fmt, 1) if fmt is not None else None}, "
@@ -113,14 +113,14 @@ def run(ck, ctx):
     def r173():
         for e in file_w:
             owner = e.funcs()[-1] if e.funcs() else "?"
-            ok = owner.startswith(WRITER) and any(c is ws and p for c, p in e.pc) and e.data.get("name") == "write"
+            ok = owner.startswith(WRITER) and _under(e.pc, ws) and e.data.get("name") == "write"
             if not ok:
                 ck.ob("R17.3", f"file output outside the guarded staged write [{owner} at {e.where()}]", False, e.node,
                       owner, f"{e.data.get('callee')} " + ("not under write_stages" if owner.startswith(WRITER) else ""),
                       construct=f"{owner}: file output {e.data.get('callee')}")
         ck.ob("R17.3", "every file-output effect below compute() is the staged write under write_stages "
               "(with intermediate writing disabled the simulation writes nothing)",
-              all((e.funcs()[-1] if e.funcs() else "").startswith(WRITER) and any(c is ws and p for c, p in e.pc)
+              all((e.funcs()[-1] if e.funcs() else "").startswith(WRITER) and _under(e.pc, ws)
                   for e in file_w), table, func, f"{len(file_w)} file-output effect(s) inspected")
         ck.floor("R17.3", len(file_w), 14, "guarded writes")
         unk = [e for e in CG.effects if e.kind in ("extcall-unknown", "call-unknown", "mcall-unknown", "unsupported")]
@@ -142,29 +142,51 @@ def run(ck, ctx):
                   (v is vals or g.same(I.snapshot(v, st), I.snapshot(vals, st))), v, "store_f", "")
             from .c14 import stored_all
             stored_all(ck, CG, "R17.4", fi, site, loc, v, pc)
-        # syntactic shape of the wrapper: values = func(...) ; store(...) ; return values
-        m = I.module(DECO_MOD)
-        fdef = m.functions.get("nss_result_store")
-        if fdef is None:
-            raise AnalysisError("nss_result_store not found")
-        inner = [n for n in ast.walk(fdef.node) if isinstance(n, ast.FunctionDef) and n.name == "store_f"]
-        if len(inner) != 1:
-            raise AnalysisError("store_f not found in nss_result_store")
-        body = inner[0]
-        func_calls = [n for n in ast.walk(body) if isinstance(n, ast.Call) and isinstance(n.func, ast.Name)
-                      and n.func.id == "func"]
-        store_calls = [n for n in ast.walk(body) if isinstance(n, ast.Call) and isinstance(n.func, ast.Name)
-                       and n.func.id == "store"]
-        rets = [n for n in ast.walk(body) if isinstance(n, ast.Return)]
-        ok = len(func_calls) == 1 and store_calls and all(sc.lineno > func_calls[0].lineno for sc in store_calls) and \
-            rets and all(r.lineno > max(sc.lineno for sc in store_calls) for r in rets) and \
-            all(isinstance(r.value, ast.Name) for r in rets)
-        ck.ob("R17.4", "the storing wrapper calls the stage once, stores after it returned and before returning its "
-              "values", ok, (m.relpath, body.lineno, 0), "nss_result_store.store_f",
-              f"{len(func_calls)} stage call(s), {len(store_calls)} store call(s), {len(rets)} return(s)")
-        tr = [n for n in ast.walk(body) if isinstance(n, ast.Try)]
-        ck.ob("R17.4", "the storing wrapper has no exception handler", not tr, (m.relpath, body.lineno, 0),
-              "nss_result_store.store_f", "")
+        # order of effects inside every wrapper invocation: the stage runs once, to completion, before anything
+        # is stored
+        groups = {}
+        for idx, e in enumerate(CG.effects):
+            ch = e.chain
+            for k, (site, fi) in enumerate(ch):
+                if fi is not None and fi.qualname == STORE_F:
+                    key = tuple((s_, f.qualname if f else None) for s_, f in ch[:k + 1])
+                    nxt = ch[k + 1] if len(ch) > k + 1 else None
+                    groups.setdefault(key, []).append((idx, e, nxt))
+                    break
+        n_inv = 0
+        for key, lst in groups.items():
+            stage = [(i, e, nx) for i, e, nx in lst if nx is not None and nx[1] is not None and
+                     not nx[1].qualname.startswith(WRITER)]
+            store = [(i, e, nx) for i, e, nx in lst if nx is not None and nx[1] is not None and
+                     nx[1].qualname.startswith(WRITER)]
+            if not store:
+                continue
+            n_inv += 1
+            sites = {nx[0] for _i, _e, nx in stage}     # a mode-dispatched stage is one call site
+            # a stage dispatched on the mode is evaluated once per alternative: order is checked per alternative
+            ok = len(sites) <= 1
+            seen_fi, cur_fi, stored = set(), None, False
+            for i, e, nx in sorted(lst, key=lambda t: t[0]):
+                if nx is None or nx[1] is None:
+                    continue
+                if nx[1].qualname.startswith(WRITER):
+                    stored = True
+                    continue
+                if nx[1] is not cur_fi:
+                    if nx[1] in seen_fi:
+                        ok = False          # the same stage function runs again after something else happened
+                    cur_fi, stored = nx[1], False
+                    seen_fi.add(nx[1])
+                elif stored:
+                    ok = False              # stage effect after its values were stored
+            ck.ob("R17.4", f"wrapper invoked at {key[-1][0][1] if key[-1][0] else '?'}: the stage runs once and has "
+                  "returned before its values are stored", ok, store[0][1].node, "store_f",
+                  f"{len(sites)} stage call site(s), {len(stage)} stage effect(s), {len(store)} store effect(s)",
+                  construct="store_f: stage / store order")
+        ck.floor("R17.4", n_inv, 6, "storing-wrapper invocations with effects")
+        hs = [e for e in CG.effects if e.kind == "except-handler" and (e.data.get("func") or "").endswith("store_f")]
+        ck.ob("R17.4", "the storing wrapper has no exception handler", not hs, hs[0].node if hs else table,
+              "nss_result_store.store_f", f"{len(hs)} handler(s)")
     ck.guard(r174, "R17.4")
 
     # ---------------------------------------------------------------- R17.5 failure
@@ -185,5 +207,16 @@ def run(ck, ctx):
     ck.guard(r175, "R17.5")
 
 
+def _strip_not(c, p):
+    while c.op == "UnaryOp" and c.attr == "Not":
+        c, p = c.args[0], not p
+    return c, p
+
+
 def _pc_key(pc, ws):
-    return tuple((c.id, p) for c, p in pc if c is not ws)
+    return tuple((c.id, p) for c, p in pc if _strip_not(c, p)[0] is not ws)
+
+
+def _under(pc, ws):
+    """the path condition requires `ws` to be true (however the test is spelled: if ws / if not ws: return)"""
+    return any(_strip_not(c, p) == (ws, True) for c, p in pc)
